@@ -14,7 +14,7 @@ import random
 
 from vlib import harness
 
-WORDS = ["a", "-x", "--long", "--k=v", "-n1", "a/b.c", "./x", "../y", "a:b", "a,b", "+x", "%d", "k=v", "12", "1.5", "x-y", "x_y", "a.b", "*.py", "~/z", "\u00fcn\u00ef", "@", "a@b", "a+b", "x==y", "-", "--", "http://h/p?q=1", "{a,b}", "a[1]", "-I/usr/include", "--color=auto", "-", "2", "None", "if", "in", "is", "not", "True"]
+WORDS = ["a", "-x", "--long", "--k=v", "-n1", "a/b.c", "./x", "../y", "a:b", "a,b", "+x", "%d", "k=v", "12", "1.5", "x-y", "x_y", "a.b", "*.py", "~/z", "\u00fcn\u00ef", "@", "a@b", "a+b", "x==y", "-", "--", "http://h/p?q=1", "{a,b}", "a[1]", "-I/usr/include", "--color=auto", "-", "2", "None", "if", "in", "is", "not", "True", "rock-and", "either/or", "x.or", "and-so", "or/else"]
 STRS = ["'s p'", '"d q"', "r'\\raw'", "f'{val}'", "'it''s'", '"$HOME"', "''", "'''t'''", "'a;b'", "'&&'", '"|"', "'#x'", "\'\'\'m1\nm2\'\'\'", '"""t1\n  t2"""']
 SUBS = ["$HOME", "${'HO'+'ME'}", "@(val)", "@([1,2])", "$(cmd9 q)", "@$(cmd9 q)", "pre@(val)post", "$HOME/x"]
 REDIR = ["> out.txt", ">> out.txt", "2> err.txt", "e>o", "2>&1", "a> all.txt", "< in.txt", "o> o.txt e> e.txt"]
@@ -88,7 +88,7 @@ class Gen:
             return "one-line-suite"
         if self.risk == "multiline-string" and self.r.random() < 0.5:
             return self.r.choice(["three-on-a-line-after-python-parsable-head", "three-on-a-line-in-block"])
-        return self.r.choice(["top", "top", "after-semicolon", "if-body", "nested-tab-indent", "def-body-2-space", "try-body", "two-on-a-line", "backslash-continuation", "with-body-depth3", "after-python-statement"])
+        return self.r.choice(["top", "top", "after-semicolon", "if-body", "nested-tab-indent", "def-body-2-space", "try-body", "two-on-a-line", "backslash-continuation", "backslash-continuation-twice", "with-body-depth3", "after-python-statement"])
 
 
 def render(t, explicit, repair=()):
@@ -156,6 +156,15 @@ def place(where, b, e, cont=None, repair=()):
             return w("")
         i = idx[(cont or 0) % len(idx)]
         b2 = b[:i] + " \\\n" + b[i + 1:]
+        return (b2 + "\n", "![" + b2 + "]\n")
+    if where == "backslash-continuation-twice":
+        # three physical lines: the command word and its first arguments alone may well be valid Python
+        idx = [i for i, c in enumerate(b) if c == " "]
+        if len(idx) < 2:
+            return w("")
+        i = idx[(cont or 0) % (len(idx) - 1)]
+        j = idx[(cont or 0) % (len(idx) - 1) + 1 + ((cont or 0) // 7) % (len(idx) - 1 - (cont or 0) % (len(idx) - 1))]
+        b2 = b[:i] + " \\\n" + b[i + 1: j] + " \\\n  " + b[j + 1:]
         return (b2 + "\n", "![" + b2 + "]\n")
     raise ValueError(where)
 
@@ -358,7 +367,7 @@ class C03:
         if case["kind"] == "fuzz":
             return self.run_fuzz(case, rec)
         tree, where = case["tree"], case["where"]
-        if where == "backslash-continuation" and has_chain(tree):
+        if where.startswith("backslash-continuation") and has_chain(tree):
             where = "top"
         verdict = self.judge_pair(tree, where, case.get("cont"), rec, count=True)
         if verdict is None or verdict[0] == "ok":
@@ -545,7 +554,7 @@ class C03:
             where = g.placement()
             case = {"kind": "pair", "tree": t, "where": where, "cont": rng.randrange(50)}
             if i < 2:
-                rec.sample(dict(case, B=place(where if not (where == "backslash-continuation" and has_chain(t)) else "top", render(t, False), render(t, True), case["cont"])[0]), "pair")
+                rec.sample(dict(case, B=place(where if not (where.startswith("backslash-continuation") and has_chain(t)) else "top", render(t, False), render(t, True), case["cont"])[0]), "pair")
             seeds.append(place("top", render(t, False), render(t, True))[0])
             rec.begin(case)
             self.run_case(case, rec)
